@@ -513,6 +513,9 @@ class Impl:
             return None
         if name == 'declare':
             return a.declare(*[vname(v) for v in args[0]])
+        if name == 'add_var':
+            v, l = args
+            return a.add_var(vname(v)) if l is None else a.add_var(vname(v), l)
         if name == 'var':
             return self._h(m, a.var(vname(args[0])))
         if name == 'true':
